@@ -330,7 +330,7 @@ def flag_merge(ctx):
     R = 'FLAG-MERGE'
     ctx.rule(R, 'per-target flags are appended after the global flags '
              '(environment flags + global options) in compile and link '
-             '_get_flags; CcBuilder takes the environment flags')
+             '_get_flags, unfiltered; CcBuilder takes the environment flags')
     F = _facts(ctx)
     for fq, pairs in (
             ('bfg9000.builtins.compile:_get_flags', [('flags', 'flags')]),
@@ -417,7 +417,9 @@ def option_identity(ctx):
              'are equal in every field (Option.matches is full equality and '
              'no option class weakens it), so a later define/std/... with a '
              'different value is kept; environment flag variables are split '
-             'with sh rules (shell.split)')
+             'with sh rules (shell.split); default include directories are '
+             'probed with the environment flags; the -l<name> pattern is '
+             'anchored as a whole')
     repo = ctx.repo
     base = repo.cls(OPTS + ':Option')
     F = _facts(ctx)
